@@ -278,3 +278,83 @@ def run_inverse_consistency(ctx: Ctx) -> None:
                     return False, f"margin=0.25 on grid size {size2}: result shape {tuple(out.shape)} expected {want_shape}"
                 return True, ""
             _guard(ctx, "T17.inverse-consistency", f"D={D}:ac={ac}", f, f"inverse consistency D={D} align_corners={ac}", th)
+
+
+def run_module_values(ctx: Ctx) -> None:
+    """Loss classes whose constructor *derives* a stored option from its arguments (not a plain copy) against their functional."""
+    import ast
+    import re
+    prog = ctx.prog
+    LF, L = "deepali.losses.flow", "deepali.losses.functional"
+    ctx.rule("T17.module-values", "for every displacement loss class whose __init__ stores an option computed from its arguments (e.g. "
+                                  "GradLoss: q = 1/p if q is None else q), module(**options)(u) equals functional(u, **options) on a symbolic "
+                                  "field for every combination of the involved options over {None, 0, 1, 2, 1/2} (None only where documented); "
+                                  "both sides raising the same exception counts as agreement")
+    funcs = prog.module(L).functions
+    found = 0
+    for name, ci in sorted(prog.module(LF).classes.items()):
+        init = ci.methods.get("__init__")
+        fw = prog.find_method(ci, "forward")
+        if init is None or fw is None or name.startswith("_"):
+            continue
+        params = [a for a in init.params if a != "self"]
+        involved = set()
+        for st in ast.walk(init.node):
+            if isinstance(st, ast.Assign) and len(st.targets) == 1 and isinstance(st.targets[0], ast.Attribute) \
+                    and isinstance(st.targets[0].value, ast.Name) and st.targets[0].value.id == "self":
+                if not (isinstance(st.value, ast.Name) and st.value.id in params):
+                    involved |= {n.id for n in ast.walk(st.value) if isinstance(n, ast.Name) and n.id in params}
+        if not involved:
+            continue
+        target = None
+        for n in ast.walk(fw.node):
+            if isinstance(n, ast.Call) and isinstance(n.func, ast.Attribute) and n.func.attr in funcs:
+                target = n.func.attr
+        if target is None:
+            raise AnalysisError(f"{name}.forward() reaches no functional of losses.functional")
+        found += 1
+        ft = funcs[target]
+        a = init.node.args
+        pos = a.posonlyargs + a.args
+        defaults = {p_.arg: d_ for p_, d_ in zip(pos[len(pos) - len(a.defaults):], a.defaults)}
+        opts = sorted(involved)
+        cand = {}
+        for o in opts:
+            vals = [0, 1, 2, Fraction(1, 2)]
+            d = defaults.get(o)
+            ann = next((x.annotation for x in pos if x.arg == o), None)
+            if (isinstance(d, ast.Constant) and d.value is None) or (ann is not None and "Optional" in ast.unparse(ann)):
+                vals = [None] + vals
+            cand[o] = vals
+        combos = list(itertools.product(*[cand[o] for o in opts]))
+        ctx.fn(init)
+
+        def th(ci=ci, ft=ft, opts=opts, combos=combos, name=name):
+            for combo in combos:
+                kw = dict(zip(opts, combo))
+                reset_relations()
+                fresh_facts()
+                it = make_interp(ctx)
+                u = STensor.symbols("u", [1, 2, 3, 3])
+
+                def run(f):
+                    try:
+                        return ("value", f())
+                    except InterpError as e:
+                        return ("raises", e.exc_type)
+                    except ZeroDivisionError:
+                        return ("raises", "ZeroDivisionError")
+                got = run(lambda: it.call_value(it.new(ci, **kw), [u.clone()], {}))
+                want = run(lambda: it.call(ft, u.clone(), **kw))
+                if got[0] != want[0]:
+                    return False, f"{name}({kw}): module {got[0]} {got[1] if got[0] == 'raises' else ''} but {ft.name}(u, {kw}) {want[0]} {want[1] if want[0] == 'raises' else ''}"
+                if got[0] == "raises":
+                    if got[1] != want[1]:
+                        return False, f"{name}({kw}) raises {got[1]}, {ft.name} raises {want[1]}"
+                    continue
+                if not teq(got[1], want[1]):
+                    return False, f"{name}({kw})(u) differs from {ft.name}(u, {kw}): {tstr(got[1])[:60]} vs {tstr(want[1])[:60]}"
+            return True, ""
+        _guard(ctx, "T17.module-values", name, init, f"class={name} options={opts} ({len(combos)} combinations)", th)
+    if found == 0:
+        raise AnalysisError("T17.module-values: no displacement loss class derives an option in its constructor (GradLoss expected)")
